@@ -862,6 +862,14 @@ example : (§"force") ∈ queryParams mUpdate ∧ LowerSnake (§"force") ∧ Low
 example : ∀ v ∈ varPaths (scan (§"/v1/{class=classes/*}/x/{book.import}")), ∀ seg ∈ v, ¬ Presuffixed seg := by decide +kernel
 example : convertUri (§"/v1/{class=classes/*}/x/{book.import}:get") = (§"/v1/{class_=classes/*}/x/{book.import_}:get") := by decide +kernel
 
+/-- hypothesis of `body_carried` on the same call -/
+example : ((httpOptions mUpdate).head?.bind (·.body)).isSome =
+    ((refTranscode (rtNames mUpdate) (httpOptions mUpdate) (rtMsg reqUpdate)).bind (·.body)).isSome := by decide +kernel
+
+/-- the point `Presuffixed` excludes: `class` and `class_` are rewritten to the same name (protoc rejects a
+message with both: equal JSON names, so this lies outside every valid input) -/
+example : fixSeg (§"class") = fixSeg (§"class_") ∧ Presuffixed (§"class_") := by decide +kernel
+
 /-- a method without annotation, one with only a `custom` pattern: no binding -/
 example : httpOptions ⟨⟨none, [], []⟩, [], [], false⟩ = [] := by decide +kernel
 example : httpOptions ⟨⟨some (§"custom"), §"/v1/x", []⟩, [], [], false⟩ = [] := by decide +kernel
